@@ -11,20 +11,28 @@ META = dict(
               "and boundary sizes (100, 1000, 10000/12000 atoms where a counter fills its column) with two symbolic probe "
               "atoms and concrete filler; element pairs from {1,8},{2,118},{10,11},{99,100},{6,17}; optional attributes "
               "absent / all present; bonds incl. one touching the last atom, each bond type; one field per record may "
-              "fill its column (width-class fork, budget 1); titles present/absent",
+              "fill its column (width-class fork, budget 1); titles present/absent; "
+              "fchk (2 atoms, d+s shells; six kinds of atomic charges, masses, gradient, Hessian, dipole, quadrupole, "
+              "polarizability, scf/spin/post-SCF density matrices as bilinear forms, run types, title/lot/basis name, "
+              "restricted/ROHF/unrestricted, conventions FCHK/HORTON2/reversed+flipped, objects without orbitals or "
+              "without basis); wfn, wfx (energy, virial ratios, gradient, model, keywords, core charges), molden "
+              "(title, core charges), molekel (Mulliken charges present/absent), each restricted and unrestricted; "
+              "QCSchema molecule (charge, multiplicity, masses, connectivity, ghost atom, fragments, passthrough keys)",
         thorough="adds poscar with a full symbolic 3x3 cell (NRA), more sizes, width budget 2, fcidump n=3"),
     outside=["values that overflow their column", "binary cube files", "float rounding of the printed digits (values travel "
-             "as exact terms)", "wavefunction formats (fchk, molden, molekel, wfn, wfx) are covered by the C01 harnesses; "
-             "QCSchema JSON: see jobs json-*"],
+             "as exact terms)", "wavefunction formats: shell sets beyond s/p/d with one or two primitives (C01 varies those); QCSchema "
+             "input/output schemas (C15 json-cycles on the corpus)", "lot/basis-name capitalisation (FCHK upper-cases on "
+             "writing and lower-cases on reading: lower-case names are used)", "an absent energy in WFN/WFX comes back as NaN "
+             "(the formats have a mandatory energy field; the writer documents NaN as 'not available')"],
     assumptions=["numbers travel through text as placeholder tokens of the exact printed width (symx.tokens)",
                  "in-memory files replace open() in iodata.api / iodata.utils", "exact real arithmetic",
                  "FCIDUMP: integrals assumed non-zero (the writer skips zeros by design)"],
     explanation="symbolic execution of api.dump_one followed by api.load_one on the written text",
 )
 
-SIZES = dict(fchk=[2], xyz=[1, 3, 1000], pdb=[1, 3, 1000, 12000], mol2=[1, 3, 1000], sdf=[1, 3, 100, 999], poscar=[1, 3, 12],
+SIZES = dict(json=[1, 3], wfn=[2], wfx=[2], molden=[2], molekel=[2], fchk=[2], xyz=[1, 3, 1000], pdb=[1, 3, 1000, 12000], mol2=[1, 3, 1000], sdf=[1, 3, 100, 999], poscar=[1, 3, 12],
              cube=[1, 2], fcidump=[1, 2])
-VARIANTS = dict(fchk=["wf-own", "wf-horton2", "wf-revflip", "uhf", "rohf", "post", "corenums", "bare", "geom", "nomo"], xyz=["default", "columns"], pdb=["default", "full", "bonds", "star"], mol2=["default", "full", "bonds"],
+VARIANTS = dict(json=["full", "bare"], wfn=["full", "bare", "uhf"], wfx=["full", "bare", "uhf", "ecp"], molden=["full", "bare", "uhf", "ecp"], molekel=["full", "bare", "uhf"], fchk=["wf-own", "wf-horton2", "wf-revflip", "uhf", "rohf", "post", "corenums", "bare", "geom", "nomo"], xyz=["default", "columns"], pdb=["default", "full", "bonds", "star"], mol2=["default", "full", "bonds"],
                 sdf=["default", "bonds"], poscar=["lower"], cube=["111", "234", "117"], fcidump=["sym"])
 
 
@@ -38,7 +46,7 @@ def jobs(tier, prop="C02", M="harness.rt"):
                 if variant == "star" and n != 3:
                     continue
                 for policy in ("fit", "touch"):
-                    if policy == "touch" and (n > 3 or fmt in ("fcidump", "fchk")):
+                    if policy == "touch" and (n > 3 or fmt in ("fcidump", "fchk", "json", "wfn", "wfx", "molden", "molekel")):
                         continue
                     if variant == "star":
                         n = 14
